@@ -52,6 +52,7 @@ type Res struct {
 	Sc       Scn      `json:"scenario"`
 	Outcomes []string `json:"outcomes,omitempty"` // seq: one per op
 	Reached  bool     `json:"reached"`
+	Trace    string   `json:"trace,omitempty"` // Coq term for trace_case_ok
 	Failures []string `json:"failures"`
 	Sigs     []string `json:"sigs"`
 	DurMs    float64  `json:"dur_ms"`
@@ -78,6 +79,8 @@ type listener struct {
 	closed bool
 	done   chan struct{}
 	start  chan struct{} // nil: reads at once; else waits for it (stalled)
+	key    int           // key of the OnSyncFinished call in the trace
+	cancelled bool
 }
 
 func (l *listener) read() {
@@ -106,6 +109,9 @@ type env struct {
 	heads []int
 	// goroutines the scheduler was holding at a yield point when Close returned
 	heldAtReturn atomic.Int64
+	tr           tracer
+	latest       []int // per publisher: index of the latest synced advertisement, -1 if none
+	closedRet    atomic.Bool
 }
 
 func newEnv(sc Scn, res *Res, npubs int, gate subdrv.GateFunc) *env {
@@ -117,6 +123,7 @@ func newEnv(sc Scn, res *Res, npubs int, gate subdrv.GateFunc) *env {
 		p.SetGate(gate)
 		e.pubs = append(e.pubs, p)
 		e.heads = append(e.heads, 1)
+		e.latest = append(e.latest, -1)
 	}
 	var opts []dagsync.Option
 	if sc.Sem > 0 {
@@ -144,7 +151,11 @@ func (e *env) listen(stalled bool) *listener {
 	if stalled {
 		l.start = make(chan struct{})
 	}
-	ok, pn := subdrv.Call(watchdog, func() { l.ch, l.cancel = e.w.Sub.OnSyncFinished() })
+	ok, pn := subdrv.Call(watchdog, func() {
+		l.key = e.callStart(callSpec{K: "listen"})
+		l.ch, l.cancel = e.w.Sub.OnSyncFinished()
+		e.callEnd(l.key, "openchan")
+	})
 	if !ok || pn != nil {
 		e.res.fail("open:OnSyncFinished:blocked", fmt.Sprintf("OnSyncFinished did not return within %v on an open subscriber (panic=%v)", watchdog, pn))
 		return nil
@@ -166,7 +177,10 @@ func (e *env) closeN(n int) (first uint64, allReturned bool) {
 		go func() {
 			var t uint64
 			ok, pn := subdrv.Call(watchdog, func() {
+				k := e.callStart(callSpec{K: "close"})
 				_ = e.w.Sub.Close()
+				e.closedRet.Store(true)
+				e.callEnd(k, "nil")
 				h := e.sched.Held.Load()
 				t = e.sched.Signal("ext:close-returned", -1)
 				if h > 0 {
@@ -210,19 +224,31 @@ func (e *env) postClose(T uint64, checkGoroutines bool) {
 	// (a) every entry point returns promptly with an error or an empty result
 	{
 		var err error
-		ok, pn := subdrv.Call(watchdog, func() { _, err = sub.SyncAdChain(context.Background(), p.Info()) })
+		ok, pn := subdrv.Call(watchdog, func() {
+			k := e.callStart(callSpec{K: "sync", Fuel: 1})
+			_, err = sub.SyncAdChain(context.Background(), p.Info())
+			e.callEnd(k, syncResult(err))
+		})
 		if !ok || pn != nil {
 			res.fail("after-close:SyncAdChain:blocked", fmt.Sprintf("SyncAdChain after Close did not return (panic=%v)", pn))
 		} else if err == nil || !strings.Contains(err.Error(), "shutdown") {
 			res.fail("after-close:SyncAdChain:no-error", fmt.Sprintf("SyncAdChain after Close returned %v", err))
 		}
-		ok, pn = subdrv.Call(watchdog, func() { err = sub.SyncEntries(context.Background(), p.Info(), p.Chain[0]) })
+		ok, pn = subdrv.Call(watchdog, func() {
+			k := e.callStart(callSpec{K: "entries"})
+			err = sub.SyncEntries(context.Background(), p.Info(), p.Chain[0])
+			e.callEnd(k, syncResult(err))
+		})
 		if !ok || pn != nil {
 			res.fail("after-close:SyncEntries:blocked", fmt.Sprintf("SyncEntries after Close did not return (panic=%v)", pn))
 		} else if err == nil || !strings.Contains(err.Error(), "shutdown") {
 			res.fail("after-close:SyncEntries:no-error", fmt.Sprintf("SyncEntries after Close returned %v", err))
 		}
-		ok, pn = subdrv.Call(watchdog, func() { err = sub.Announce(context.Background(), p.Chain[len(p.Chain)-1], p.Info()) })
+		ok, pn = subdrv.Call(watchdog, func() {
+			k := e.callStart(callSpec{K: "announce", Fuel: 1})
+			err = sub.Announce(context.Background(), p.Chain[len(p.Chain)-1], p.Info())
+			e.callEnd(k, annResult(err))
+		})
 		if !ok || pn != nil {
 			res.fail("after-close:Announce:blocked", fmt.Sprintf("Announce after Close did not return (panic=%v)", pn))
 		} else if !errors.Is(err, announce.ErrClosed) {
@@ -230,7 +256,20 @@ func (e *env) postClose(T uint64, checkGoroutines bool) {
 		}
 		var ch <-chan dagsync.SyncFinished
 		var cncl context.CancelFunc
-		ok, pn = subdrv.Call(watchdog, func() { ch, cncl = sub.OnSyncFinished() })
+		lateKey := -1
+		ok, pn = subdrv.Call(watchdog, func() {
+			lateKey = e.callStart(callSpec{K: "listen"})
+			ch, cncl = sub.OnSyncFinished()
+			st := "openchan"
+			select {
+			case _, open := <-ch:
+				if !open {
+					st = "closedchan"
+				}
+			case <-time.After(50 * time.Millisecond):
+			}
+			e.callEnd(lateKey, st)
+		})
 		if !ok || pn != nil {
 			res.fail("after-close:OnSyncFinished:blocked", fmt.Sprintf("OnSyncFinished after Close did not return within %v (panic=%v)", watchdog, pn))
 		} else {
@@ -248,11 +287,25 @@ func (e *env) postClose(T uint64, checkGoroutines bool) {
 		}
 		for _, l := range e.ls {
 			l := l
-			if ok, pn := subdrv.Call(watchdog, func() { l.cancel() }); !ok || pn != nil {
+			first := !l.cancelled
+			l.cancelled = true
+			if ok, pn := subdrv.Call(watchdog, func() {
+				if first {
+					k := e.callStart(callSpec{K: "cancel", LKey: l.key})
+					l.cancel()
+					e.callEnd(k, "nil")
+				} else {
+					l.cancel()
+				}
+			}); !ok || pn != nil {
 				res.fail("after-close:cancel:blocked", fmt.Sprintf("a cancel func called after Close did not return (panic=%v)", pn))
 			}
 		}
-		ok, pn = subdrv.Call(watchdog, func() { err = sub.Close() })
+		ok, pn = subdrv.Call(watchdog, func() {
+			k := e.callStart(callSpec{K: "close"})
+			err = sub.Close()
+			e.callEnd(k, "nil")
+		})
 		if !ok || pn != nil {
 			res.fail("after-close:Close:blocked", fmt.Sprintf("a second Close did not return (panic=%v)", pn))
 		}
@@ -297,6 +350,26 @@ func (e *env) postClose(T uint64, checkGoroutines bool) {
 			res.fail("goroutines:"+strings.Join(dedup(g), ","), fmt.Sprintf("library goroutines left 400 ms after Close: %v", g))
 		}
 	}
+}
+
+func syncResult(err error) string {
+	switch {
+	case err == nil:
+		return "ok"
+	case strings.Contains(err.Error(), "shutdown"):
+		return "shutdown"
+	}
+	return "err"
+}
+
+func annResult(err error) string {
+	switch {
+	case err == nil:
+		return "nil"
+	case errors.Is(err, announce.ErrClosed):
+		return "errclosed"
+	}
+	return "err"
 }
 
 func dedup(l []string) []string {
@@ -357,7 +430,9 @@ func runInject(sc Scn) (res Res) {
 	}
 	var regDone chan struct{}
 	if sc.Point == "listen:adding" || sc.Point == "dist:added" {
-		// a registration is in flight when Close starts
+		// a registration is in flight when Close starts (its outcome, added or given up, is
+		// not observable: such runs are not replayed on the model)
+		e.tr.off = true
 		regDone = make(chan struct{})
 		go func() {
 			defer close(regDone)
@@ -372,14 +447,21 @@ func runInject(sc Scn) (res Res) {
 	p.SetHead(3)
 	if explicit {
 		go func() {
+			k := e.callStart(callSpec{K: "sync", Fuel: 4})
 			c, err := e.w.Sub.SyncAdChain(context.Background(), p.Info())
+			e.callEnd(k, syncResult(err))
 			if err == nil && c != p.Chain[3] {
 				err = fmt.Errorf("returned %v", c)
 			}
 			syncDone <- err
 		}()
 	} else {
-		go func() { syncDone <- e.w.Sub.Announce(context.Background(), p.Chain[3], p.Info()) }()
+		go func() {
+			k := e.callStart(callSpec{K: "announce", Fuel: 4})
+			err := e.w.Sub.Announce(context.Background(), p.Chain[3], p.Info())
+			e.callEnd(k, annResult(err))
+			syncDone <- err
+		}()
 	}
 	nthReached := 1
 	if sc.Point == "listen:adding" || sc.Point == "dist:added" {
@@ -408,6 +490,9 @@ func runInject(sc Scn) (res Res) {
 			res.fail("explicit-sync-cut-short:"+sc.Point, fmt.Sprintf("explicit sync fetched %d of 4 blocks", e.w.NHooks()))
 		}
 		e.postClose(T, true)
+		if len(res.Failures) == 0 {
+			res.Trace, _ = e.buildTrace(sc.Sem, true)
+		}
 	}
 	res.DurMs = float64(time.Since(t0).Microseconds()) / 1000
 	return
@@ -570,6 +655,9 @@ func runAfterClose(sc Scn) (res Res) {
 	res.Reached = true
 	if returned {
 		e.postClose(T, true)
+		if len(res.Failures) == 0 {
+			res.Trace, _ = e.buildTrace(sc.Sem, true)
+		}
 	}
 	res.DurMs = float64(time.Since(t0).Microseconds()) / 1000
 	return
@@ -662,7 +750,7 @@ func runMix(sc Scn) (res Res) {
 	return
 }
 
-// runSeq: the ops one after the other, each to completion; outcomes for the Coq acceptor.
+// runSeq: the ops one after the other, each to completion; outcomes for the Coq acceptors.
 func runSeq(sc Scn) (res Res) {
 	res.Sc = sc
 	t0 := time.Now()
@@ -670,26 +758,35 @@ func runSeq(sc Scn) (res Res) {
 	defer e.cleanup()
 	p := e.pubs[0]
 	head := 1
-	var cancels []context.CancelFunc
+	var open []*listener
 	short := 300 * time.Millisecond
 	expClosed := false
 	for _, op := range sc.Ops {
 		out := "?"
 		switch op {
 		case "close":
-			ok, _ := subdrv.Call(watchdog, func() { _ = e.w.Sub.Close() })
+			ok, _ := subdrv.Call(watchdog, func() {
+				k := e.callStart(callSpec{K: "close"})
+				_ = e.w.Sub.Close()
+				e.callEnd(k, "nil")
+			})
 			out = pick(ok, "nil", "blocked")
 			expClosed = true
 		case "sync":
 			head++
 			p.SetHead(head)
 			var err error
-			ok, _ := subdrv.Call(watchdog, func() { _, err = e.w.Sub.SyncAdChain(context.Background(), p.Info()) })
+			ok, _ := subdrv.Call(watchdog, func() {
+				k := e.callStart(callSpec{K: "sync", Fuel: head - e.latest[0]})
+				_, err = e.w.Sub.SyncAdChain(context.Background(), p.Info())
+				e.callEnd(k, syncResult(err))
+			})
 			switch {
 			case !ok:
 				out = "blocked"
 			case err == nil:
 				out = "ok"
+				e.latest[0] = head
 			case strings.Contains(err.Error(), "shutdown"):
 				out = "shutdown"
 			default:
@@ -700,22 +797,38 @@ func runSeq(sc Scn) (res Res) {
 			p.SetHead(head)
 			var err error
 			n0 := e.sched.Count("event:sent", 0)
-			ok, _ := subdrv.Call(watchdog, func() { err = e.w.Sub.Announce(context.Background(), p.Chain[head], p.Info()) })
+			ok, _ := subdrv.Call(watchdog, func() {
+				k := e.callStart(callSpec{K: "announce", Fuel: head - e.latest[0]})
+				err = e.w.Sub.Announce(context.Background(), p.Chain[head], p.Info())
+				e.callEnd(k, annResult(err))
+			})
 			switch {
 			case !ok:
 				out = "blocked"
 			case err == nil:
 				out = "nil"
-				e.sched.WaitFor("event:sent", 0, n0+1, watchdog) // let the triggered sync finish
+				if e.sched.WaitFor("event:sent", 0, n0+1, watchdog) { // let the triggered sync finish
+					e.latest[0] = head
+				}
 			case errors.Is(err, announce.ErrClosed):
 				out = "errclosed"
 			default:
 				out = "err"
 			}
 		case "listen":
-			var ch <-chan dagsync.SyncFinished
-			var c context.CancelFunc
-			ok, _ := subdrv.Call(short, func() { ch, c = e.w.Sub.OnSyncFinished() })
+			l := &listener{done: make(chan struct{})}
+			ok, _ := subdrv.Call(short+100*time.Millisecond, func() {
+				l.key = e.callStart(callSpec{K: "listen"})
+				l.ch, l.cancel = e.w.Sub.OnSyncFinished()
+				st := "openchan"
+				select {
+				case _, isOpen := <-l.ch:
+					st = pick(isOpen, "event", "closedchan")
+				case <-time.After(30 * time.Millisecond):
+				}
+				e.callEnd(l.key, st)
+				out = st
+			})
 			if !ok {
 				out = "blocked"
 				if expClosed {
@@ -723,21 +836,21 @@ func runSeq(sc Scn) (res Res) {
 				}
 				break
 			}
-			cancels = append(cancels, c)
-			select {
-			case _, open := <-ch:
-				out = pick(open, "event", "closedchan")
-			case <-time.After(30 * time.Millisecond):
-				out = "openchan"
+			if out == "openchan" {
+				open = append(open, l)
 			}
 		case "cancel":
-			if len(cancels) == 0 {
+			if len(open) == 0 {
 				out = "nil"
 				break
 			}
-			c := cancels[len(cancels)-1]
-			cancels = cancels[:len(cancels)-1]
-			ok, _ := subdrv.Call(short, func() { c() })
+			l := open[len(open)-1]
+			open = open[:len(open)-1]
+			ok, _ := subdrv.Call(short, func() {
+				k := e.callStart(callSpec{K: "cancel", LKey: l.key})
+				l.cancel()
+				e.callEnd(k, "nil")
+			})
 			out = pick(ok, "nil", "blocked")
 		}
 		res.Outcomes = append(res.Outcomes, out)
@@ -747,6 +860,12 @@ func runSeq(sc Scn) (res Res) {
 	}
 	res.Reached = true
 	res.Sc.Ops = sc.Ops[:len(res.Outcomes)]
+	// let the distributor take what has been sent, then convert the log
+	e.sched.WaitFor("dist:forward", -1, e.sched.Count("event:sent", -1), 300*time.Millisecond)
+	time.Sleep(2 * time.Millisecond)
+	if len(res.Failures) == 0 {
+		res.Trace, _ = e.buildTrace(sc.Sem, expClosed)
+	}
 	res.DurMs = float64(time.Since(t0).Microseconds()) / 1000
 	return
 }
@@ -850,6 +969,7 @@ func main() {
 	c := vlib.Init("C15")
 	defer c.Finish()
 	c.Family("seq", []string{"From Model Require Import C15_Shutdown."}, "seq_case_ok", 500)
+	c.Family("trace", []string{"From Model Require Import C15_Shutdown."}, "trace_case_ok", 120)
 	c.Res.Exhaustive = true
 	c.Res.Rule = "Close injected (the sync goroutine is held there until doClose has started) at each of the verif yield points of an explicit sync and of an announce-triggered sync, plus a held publisher block request and an in-flight registration, with 1, 2 and 4 concurrent Close callers, with and without the async semaphore; a publisher that never answers; seeded random mixes of 3..8 concurrent calls (close, sync, announce, listen, cancel) with perturbed yield points; Close with the distributor held; every call under a 2 s watchdog; after Close: entry points, silence (hooks, store writes, yield points), listener channels closed, goroutine dump; all sequential histories over the 5 calls up to length 4/5 (exhaustive) as Coq cases; non-trivial = the injection point was reached / the mix or history contains a call after a Close"
 
@@ -867,6 +987,9 @@ func main() {
 		}
 		if sc.Kind == "seq" {
 			c.Case("seq", coqSeq(r), sc)
+		}
+		if r.Trace != "" {
+			c.Case("trace", r.Trace, sc)
 		}
 		c.Eval()
 		return
@@ -900,6 +1023,10 @@ func main() {
 		if nontriv {
 			js, _ := json.Marshal(r.Sc)
 			c.Nontrivial(string(js))
+		}
+		if r.Trace != "" {
+			c.Case("trace", r.Trace, r.Sc)
+			c.Count("traced:" + r.Sc.Kind)
 		}
 		if r.Sc.Kind == "seq" {
 			c.Case("seq", coqSeq(r), r.Sc)
